@@ -20,6 +20,7 @@ import (
 	"time"
 
 	ml "github.com/hashicorp/memberlist"
+	"github.com/hashicorp/memberlist/vshim/vsched"
 )
 
 // ---------------------------------------------------------------- addresses
@@ -307,6 +308,10 @@ func (t *simTransport) DialAddressTimeout(a ml.Address, d time.Duration) (net.Co
 	return f(a, d)
 }
 func (t *simTransport) Shutdown() error {
+	// tearing a transport down takes time: let Engine T schedule other threads here
+	if s := vsched.Cur(); s != nil && !s.IsSched() && s.Known() {
+		s.Point(vsched.KYield, nil, "")
+	}
 	t.mu.Lock()
 	t.shut = true
 	t.mu.Unlock()
